@@ -125,7 +125,7 @@ impl BasicHeader {
     pub fn parse(block1: &str) -> Result<Self> {
         // Expected format: F01SSSSSSSSSCCC0000NNNNNN (exactly 25 characters)
         // Where: F=app_id, 01=service_id, SSSSSSSSSCCC=logical_terminal(12), 0000=session(4), NNNNNN=sequence(6)
-        if block1.len() != 25 {
+        if block1.len() != 25 || !block1.is_ascii() {
             return Err(ParseError::InvalidBlockStructure {
                 block: "1".to_string(),
                 message: format!(
@@ -375,7 +375,7 @@ pub enum ApplicationHeader {
 impl ApplicationHeader {
     /// Parse application header from block 2 string
     pub fn parse(block2: &str) -> Result<Self> {
-        if block2.len() < 4 {
+        if block2.len() < 4 || !block2.is_ascii() {
             return Err(ParseError::InvalidBlockStructure {
                 block: "2".to_string(),
                 message: format!(
